@@ -35,6 +35,10 @@ MCNext ==
     \/ /\ WithQueries
        /\ \/ \E i \in IdUniverse : Get(i)
           \/ \E st \in StreamUniverse : Gap(st)
+          \/ \E st \in StreamUniverse, failed \in BOOLEAN :
+                \E fills \in {{}} \cup {{v} : v \in {x \in VaaUniverse : Stream(x.id) = st}} :
+                    /\ \A v \in fills : v.id \in DOMAIN written \/ Cardinality(DOMAIN written) < MaxIds
+                    /\ GapBackfill(st, fills, fills, failed)
           \/ \E q \in QSets : GovBatch(q)
           \/ \E st \in StreamUniverse, q \in QSets : NonGovBatch(st, q)
     \/ /\ WithCrash
